@@ -3,6 +3,7 @@ package keeper
 import (
 	"context"
 
+	ordertypes "github.com/SaoNetwork/sao/x/order/types"
 	"github.com/SaoNetwork/sao/x/sao/types"
 	sdk "github.com/cosmos/cosmos-sdk/types"
 	sdkerrors "github.com/cosmos/cosmos-sdk/types/errors"
@@ -62,6 +63,20 @@ func (k msgServer) Terminate(goCtx context.Context, msg *types.MsgTerminate) (*t
 		}
 	}
 
+	// an order of this model that is still in flight ends with the model: it is cancelled and refunded,
+	// otherwise it would survive as an orphan and later be applied to (or roll back) whatever model
+	// exists under the same data id by then
+	if inflight, found := k.order.GetOrder(ctx, meta.OrderId); found && inflight.DataId == meta.DataId &&
+		inflight.Status != ordertypes.OrderCompleted && inflight.Operation != 3 {
+		for _, shardId := range inflight.Shards {
+			k.order.RemoveShard(ctx, shardId)
+		}
+		err = k.model.CancelOrder(ctx, inflight.Id)
+		if err != nil {
+			return nil, err
+		}
+	}
+
 	shardSet := make(map[uint64]int)
 	for _, orderId := range meta.Orders {
 		order, found := k.order.GetOrder(ctx, orderId)
@@ -83,9 +98,12 @@ func (k msgServer) Terminate(goCtx context.Context, msg *types.MsgTerminate) (*t
 		k.order.RemoveShard(ctx, shardId)
 	}
 
-	err = k.model.DeleteMeta(ctx, msg.Proposal.DataId)
-	if err != nil {
-		return nil, err
+	// a model that never had a committed version is already gone with its cancelled order
+	if _, stillThere := k.Keeper.model.GetMetadata(ctx, msg.Proposal.DataId); stillThere {
+		err = k.model.DeleteMeta(ctx, msg.Proposal.DataId)
+		if err != nil {
+			return nil, err
+		}
 	}
 
 	return &types.MsgTerminateResponse{}, nil
